@@ -110,7 +110,7 @@ def make_mc(case, with_calc=False):
 @st.composite
 def table_st(draw, stat=False):
     n = draw(st.integers(1, 6))
-    cycles = draw(st.integers(1, 12))
+    cycles = draw(st.integers(1, 12)) if (stat or draw(st.integers(0, 9)) > 0) else 0  # 0 cycles: a step attempts nothing
     budget = cycles
     table = []
     nothing_due_class = (not stat) and draw(st.integers(0, 7)) == 0
@@ -140,6 +140,8 @@ def table_st(draw, stat=False):
         case["probe_steps"] = draw(st.lists(st.one_of(st.integers(0, 40), st.integers(0, 40), st.sampled_from([60, 120, 10 ** 6, 2 ** 31, 2 ** 31 + 7, 2 ** 40 + 60])), min_size=1, max_size=8))
         case["via_run"] = draw(st.booleans())
         case["new_interval"] = draw(st.integers(1, 5))
+        # a weight re-tuned on the live table (documented attribute of the table entry) applies from the next step on
+        case["reweight"] = draw(st.one_of(st.none(), st.tuples(st.integers(0, n - 1), st.one_of(st.just(0.0), fl(0.05, 10)))))
     return case
 
 
@@ -196,6 +198,23 @@ def run_steps(case):
         labels.append("driver:" + case.get("driver", "MonteCarlo") + (":default-names" if case.get("default_names") else ""))
         if case.get("wscale", 1.0) != 1.0:
             labels.append("weights-rescaled")
+        if case.get("reweight") is not None:
+            i_rw, w_rw = case["reweight"]
+            new_table = [list(t) for t in case["table"]]
+            new_table[i_rw][1] = float(w_rw)
+            case2 = dict(case, table=new_table)
+            mc.moves[name_of(case, i_rw)].probability = float(w_rw) * float(case.get("wscale", 1.0))
+            labels.append("weight-retuned-on-live-table")
+            for step in case["probe_steps"]:
+                due2 = [t for t in new_table if step % t[0] == 0]
+                if due2 and not any(t[1] > 0 for t in due2):
+                    continue  # outside the stated domain (due weights all zero)
+                mc.step_count = step
+                names = [str(n) for n in mc.yield_moves()]
+                v, labs = check_step(case2, step, names, "yield_moves after re-tuning a weight")
+                if v:
+                    return {"labels": labels, "nontrivial": True, "key": key, "violation": {"kind": v[0] + ":retuned", "detail": f"table(interval,weight,min)={new_table} (weight of m{i_rw} was {case['table'][i_rw][1]}) cycles={case['cycles']}: {v[1]}"}}
+            mc.moves[name_of(case, i_rw)].probability = float(case["table"][i_rw][1]) * float(case.get("wscale", 1.0))
         if case["via_run"]:
             mc2 = make_mc(case)
             labels.append("via-run")
